@@ -28,6 +28,60 @@ API_METHOD = {
 FLAVOURS = ['rodbus::client::channel::Channel', 'rodbus::client::channel::CallbackSession', 'rodbus::client::ffi_channel::FfiChannel']
 
 
+def byte_count_value(b, o, pname, kind):
+    """the operand is the number of data bytes for `pname` items: ceil(n / 8) for bits, 2 * n for registers"""
+    def is_n(x):
+        return q.is_name(b, x, pname)
+    def div8(sm):
+        return sm.kind == 'bin' and sm.extra[1] == 'Div' and is_n(sm.extra[2]) and q.int_value(b, sm.extra[3]) == 8
+    def div8_plus1(sm):
+        if not (sm.kind == 'bin' and sm.extra[1].startswith('Add')):
+            return False
+        a0, a1 = sm.extra[2], sm.extra[3]
+        return (div8(q.sem(b, a0)) and q.int_value(b, a1) == 1) or (div8(q.sem(b, a1)) and q.int_value(b, a0) == 1)
+    sm = q.sem(b, o)
+    if kind == 'registers':
+        ok = sm.kind == 'bin' and sm.extra[1].startswith('Mul') and sorted([q.int_value(b, sm.extra[2]) == 2, q.int_value(b, sm.extra[3]) == 2]) == [False, True] and (is_n(sm.extra[2]) or is_n(sm.extra[3]))
+        return ok, repr(sm)
+    if sm.kind == 'call' and (sm.cs.callee or '').endswith('::div_ceil') and is_n(sm.cs.args[0]) and q.int_value(b, sm.cs.args[1]) == 8:
+        return True, 'div_ceil'
+    if sm.kind == 'bin' and sm.extra[1] == 'Div' and q.int_value(b, sm.extra[3]) == 8:
+        num = q.sem(b, sm.extra[2])
+        if num.kind == 'bin' and num.extra[1].startswith('Add') and ((is_n(num.extra[2]) and q.int_value(b, num.extra[3]) == 7) or (is_n(num.extra[3]) and q.int_value(b, num.extra[2]) == 7)):
+            return True, '(n + 7) / 8'
+    if sm.kind == 'place' and sm.extra == 'multi' and not sm.proj:
+        # n / 8 where n is a multiple of 8, n / 8 + 1 where it is not
+        mult_true, mult_false = [], []
+        for cs in b.calls():
+            if (cs.callee or '').endswith('::is_multiple_of') and is_n(cs.args[0]) and q.int_value(b, cs.args[1]) == 8:
+                be = q.bool_edges(b, cs)
+                mult_true += be['true']
+                mult_false += be['false']
+        for (e, rel, a_, b_) in q.cmp_facts(b):
+            for x_, y_ in ((a_, b_), (b_, a_)):
+                sx = q.sem(b, x_)
+                if sx.kind == 'bin' and sx.extra[1] == 'Rem' and is_n(sx.extra[2]) and q.int_value(b, sx.extra[3]) == 8 and q.int_value(b, y_) == 0:
+                    if rel == 'eq':
+                        mult_true.append(e)
+                    elif rel == 'ne':
+                        mult_false.append(e)
+        defs = b.whole_defs(sm.local)
+        ok = len(defs) == 2
+        seen = set()
+        for d in defs:
+            if d[0] != 'assign' or d[2]['rv']['r'] != 'use':
+                return False, 'unexpected definition'
+            v = q.sem(b, d[2]['rv']['a'][0])
+            if div8(v) and q.dominated_by_any(b, mult_true, ('b', d[1])):
+                seen.add('exact')
+            elif div8_plus1(v) and q.dominated_by_any(b, mult_false, ('b', d[1])):
+                seen.add('round-up')
+            else:
+                ok = False
+        return ok and seen == {'exact', 'round-up'}, 'match on multiple-of-8: %s' % sorted(seen)
+    return False, repr(sm)
+
+
 @rule('C03', 'R03.1', 'read limits: the limit-carrying range newtypes can only be produced by the limit checks')
 def r1(c):
     P = c.P
@@ -195,6 +249,11 @@ def r5(c):
             else:
                 ok = ok and v.kind == 'call' and v.cs is tf[0] and not v.proj                      # the conversion's own result
         c.ob('byte-count/%s' % f.rsplit('::', 1)[-1], ok, '%s returns through u8::try_from (no silent truncation of the byte count)' % f, '', loc_of(b))
+        if len(tf) == 1:
+            arg0 = b.sig_in and [n_ for n_, pl in b.names.items() if not pl['p'] and pl['l'] == 1]
+            pname = arg0[0] if arg0 else 'num_bits'
+            okv, how = byte_count_value(b, tf[0].args[0], pname, 'bits' if f.endswith('_bits') else 'registers')
+            c.ob('byte-count/%s/value' % f.rsplit('::', 1)[-1], okv, 'the count converted is %s' % ('ceil(n / 8): n / 8 for a multiple of 8, n / 8 + 1 otherwise (or n.div_ceil(8), (n + 7) / 8)' if f.endswith('_bits') else '2 x n'), how, loc_of(b))
     for ty, fn_ in (('bool', 'calc_bytes_for_bits'), ('u16', 'calc_bytes_for_registers')):
         b = P.fn('<&[%s] as rodbus::common::traits::Serialize>::serialize' % ty)
         cb = one(b.calls('rodbus::common::serialize::' + fn_), fn_)
@@ -467,3 +526,24 @@ def r7(c):
 def r8(c):
     from rules import c18
     c18.r4(c)
+
+
+@rule('C03', 'R03.9', 'a frame handed to the physical layer is written completely: every transport arm of PhysLayer::write uses write_all (a short write would put a prefix of the frame on the wire and report success)')
+def r9(c):
+    P = c.P
+    w = P.fn('rodbus::common::phys::PhysLayer::write')
+    c.saw(w, len(w.calls()))
+    AW = 'tokio::io::util::async_write_ext::AsyncWriteExt::'
+    wr = [cs for cs in w.calls() if (cs.declared or '').startswith(AW) or (cs.declared or '').startswith('tokio::io::async_write::AsyncWrite::')]
+    partial = [cs for cs in wr if cs.declared.rsplit('::', 1)[-1] not in ('write_all', 'flush', 'shutdown', 'write_all_buf')]
+    full = [cs for cs in wr if cs.declared.rsplit('::', 1)[-1] in ('write_all', 'write_all_buf')]
+    c.ob('write_all', not partial and len(full) >= 1 and all(q.is_name(w, cs.args[1], 'data') for cs in full), 'PhysLayer::write hands the whole `data` slice to write_all on every arm (no partial write)', 'partial: %s' % [x.declared.rsplit('::', 1)[-1] for x in partial], loc_of(w), examined=len(wr))
+    arms = q.arms_of(w, 'rodbus::common::phys::PhysLayerImpl')
+    miss = []
+    for v, lst in arms.items():
+        reg = set()
+        for e, r in lst:
+            reg |= r
+        if not any(cs.node in reg for cs in full):
+            miss.append(v)
+    c.ob('every-arm', bool(arms) and not miss, 'every transport variant writes', 'arms without a write_all: %s' % miss, loc_of(w))
